@@ -1,4 +1,5 @@
 import SockModel.Model.LocksLemmas
+import SockModel.Spec.C04
 /-!
 # C05  The driver always yields and always wakes: no deadlock, no lost wake-up
 
@@ -197,3 +198,36 @@ theorem handover_at_most_one_step {s : St} (h : Reach s) (t : Tid) (path : List 
     omega
 
 end SockModel.Locks
+
+/-! ### the run-time oracle is a theorem of the model (`Spec/C04.lean`) -/
+namespace SockModel.Locks.C05
+open SockModel.Locks.Spec
+
+/-- the predicate `./check C05` evaluates on the implementation's scheduler trace (`Spec/C04.lean`: `specStep`
+in mode C05 = monitor `stepB`: "the driver began n steps while T waits for stepMtx after its wake-up
+datagram" for n > 1 - the run-time form of `handover_at_most_one_step`; outcomes `deadlock`, `stuck`, `crash`
+are failures) accepts every trace of the model, for every history of any length (any number of user threads,
+any programs, Stops from any thread).  The model never produces the outcome `deadlock`: that is
+`no_deadlock` / `driver_progress` above, not this theorem.  No hypothesis. -/
+theorem spec_holds_on_model (history : List MOp) :
+    ∃ s, specRun ⟨false, true, false⟩ {} (modelTrace {} history) = .ok s :=
+  model_satisfies_spec _ history
+
+/-- non-vacuity: the hand-shake with the driver in `poll` is a model trace; a driver that begins two steps
+while the caller waits after its datagram is rejected -/
+example : modelTrace {} [.tr .dStepEnter, .tr .dLockStep, .tr .dToPoll, .tr (.uTryFail 3), .tr (.uLockPause 3),
+      .tr (.uBump 3), .tr .dPollPipe, .tr .dUnlockStep, .tr .dLockPause, .tr (.uLockStep 3)] =
+    [.ev 0 .other, .ev 0 .lockStep, .ev 0 .other, .ev 4 .other, .ev 4 .other, .ev 4 .bump, .ev 0 .other,
+     .ev 0 .unlockStep, .ev 4 .lockStep] := by decide
+example : accepts ⟨false, true, false⟩
+    [.ev 0 .lockStep, .ev 4 .bump, .ev 0 .unlockStep, .ev 0 .lockStep, .ev 0 .unlockStep, .ev 4 .lockStep] = true := by
+  decide
+example : accepts ⟨false, true, false⟩
+    [.ev 0 .lockStep, .ev 4 .bump, .ev 0 .unlockStep, .ev 0 .lockStep, .ev 0 .unlockStep, .ev 0 .lockStep] = false := by
+  decide
+/-- the datagram of a `Stop()` is not a caller waiting for `stepMtx` -/
+example : accepts ⟨false, true, false⟩
+    [.ev 4 (.beginStop true), .ev 4 .bump, .ev 4 .endStop, .ev 0 .lockStep, .ev 0 .unlockStep, .ev 0 .lockStep] = true := by
+  decide
+
+end SockModel.Locks.C05
